@@ -23,6 +23,8 @@
     Exp::UnOp / UnOp::Not
     Exp::Number
     Exp::Variable
+    Exp::Min
+    Exp::Max
 @fn Exp::linearize @return 1
     proof { assert forall|env: Env| #[trigger] sem(*self, env) is Some implies sem(*self->BinOp_1, env) == Some(rv(*coefficient)) by {} }
 @fn Exp::linearize @return 2
@@ -41,7 +43,7 @@
         assert forall|env: Env| #[trigger] sem(*self, env) is Some implies sem(*self->BinOp_2, env) == Some(rv(*divisor)) by {}
     }
 @fn Exp::linearize @entry
-    proof { lemma_exp_fin(*self); lemma_exp_fin(*self->BinOp_1); lemma_exp_fin(*self->BinOp_2); lemma_real_arith(); }
+    proof { lemma_exp_fin(*self); lemma_exp_fin(*self->BinOp_1); lemma_exp_fin(*self->BinOp_2); lemma_exp_fin_list(*self); lemma_real_arith(); }
 @raw
 // pure real-arithmetic facts used by the arms (no hypothesis about the code)
 pub proof fn lemma_real_arith()
